@@ -203,7 +203,7 @@ def sampleTree : Expr :=
 
 example : printable sampleTree = true := by decide
 
-example : parseToks none (printToks { insideParens := true, aroundComma := true } .full sampleTree)
+example : parseToks none (printToks { insideParens := true, beforeComma := true, afterComma := true } .full sampleTree)
     = .ok sampleTree := parse_printToks _ _ _ (by decide)
 
 end OQ.C05
